@@ -8,8 +8,8 @@ as pinned; Guard = TRUE: additionally refusing an absolute relative part).
 
 1. TLC model-checks both variants against the contract over all request
    histories of length MaxReq (every Uri-Path list over the component
-   alphabet x 5 methods x write on/off x 5 conditional-option settings, plus
-   absolute probes).  A counterexample is only a candidate: it is replayed on
+   alphabet x the 7 CoAP request methods x write on/off x conditional-option
+   settings, plus absolute, look-alike-sibling and decorated-dot probes).  A counterexample is only a candidate: it is replayed on
    the real FileServer.
 2. spec -> code: TLC enumerates every request (FileServerTrace, mode enum);
    each is executed on a real FileServer rooted in a temp tree that mirrors
@@ -68,9 +68,10 @@ SMALL_JVM = "-XX:ParallelGCThreads=2 -XX:CICompilerCount=2"
 QUICK_LENS = [0, 64, 65 * 16 + 1]
 THOROUGH_LENS = [0, 1, 15, 16, 17, 31, 32, 33, 63, 64, 65, 127, 128, 129, 1023, 1024, 1025, 1040, 1041, 1042, 2047, 2048, 2049, 4097]
 
-METHODS = ["GET", "PUT", "DELETE", "POST", "FETCH"]
+# must equal FileServer!Methods and the request codes of aiocoap.Code (checked at run time)
+METHODS = ["GET", "PUT", "DELETE", "POST", "FETCH", "PATCH", "iPATCH"]
 CONDS = ["none", "stale", "any", "match", "inm"]
-CONDS_OF = {"GET": ["none", "stale", "match"], "PUT": CONDS, "DELETE": ["none", "stale", "any", "match"], "POST": ["none"], "FETCH": ["none"]}
+CONDS_OF = {"GET": ["none", "stale", "match"], "PUT": CONDS, "DELETE": ["none", "stale", "any", "match"], "POST": ["none"], "FETCH": ["none"], "PATCH": ["none"], "iPATCH": ["none"]}
 
 
 def expand(steps):
@@ -173,7 +174,14 @@ STRUCTURAL = [
     " ", "%2e%2e", "%2F", "%00", "\uff0e\uff0e", "\uff0f", "\u2215", "\u2024\u2024", "\u202e", "\ufeff", "\u00e9", "e\u0301",
     "\u00c9", "a", "A", "d", "f", "top", "srv", "tmp", "\n", "a\n", "a ", ".a", "a.", "..a", "a..", "d/f", "d/../a",
     "/etc", "etc", "\u00e9/", "\ud7ff", "\U0001f4c1", "\U0010ffff", "x" * 40,
+    # names around the root: the look-alike sibling (root name + suffix), truncated / extended names
+    "srv2", "srv2", "srv-private", "sr", "srv.", "to", "top2", "../srv2", "../srv2/a",
 ]  # fmt: skip
+# characters that a sanitising / decoding step might remove or translate: every dot component is also
+# generated *decorated* with them ("..\0", "\0..", ".\0.", ".\0"), not only the character next to letters
+SANITISED = ["\0", " ", "\t", "\n", "\r", "%00", "%2e", "%2E", "\ufeff", "\u202e", "\u200b", "\u00ad", "\\", "\x7f"]
+for _c in SANITISED:
+    STRUCTURAL += [".." + _c, _c + "..", "." + _c + ".", "." + _c, _c + "."]
 RANGES = [
     (0x21, 0x7E), (0x01, 0x1F), (0x7F, 0x9F), (0xA0, 0x24F), (0x370, 0x3FF), (0x590, 0x6FF), (0x300, 0x36F),
     (0x2000, 0x206F), (0x3040, 0x30FF), (0x4E00, 0x4FFF), (0xE000, 0xE0FF), (0xFF00, 0xFFEF), (0x1F300, 0x1F5FF),
@@ -207,11 +215,13 @@ def random_unicode_case(rng):
             u[1:1] = [["BASE1"], ["BASE2"]] + rng.choice([[], [tok("top")], [tok("top"), tok("srv")]])
     elif r < 0.35:
         u.append([])
-    m = rng.choice(["GET", "GET", "PUT", "PUT", "DELETE", "DELETE", "POST", "FETCH"])
+    elif r < 0.45:
+        u[0:0] = [tok(".."), tok(rng.choice(["srv2", "srv2", "srv", "d", "top"]))]
+    m = rng.choice(["GET", "GET", "PUT", "PUT", "DELETE", "DELETE", "POST", "FETCH", "PATCH", "iPATCH"])
     return {"m": m, "w": rng.random() < 0.6, "c": rng.choice(CONDS_OF[m]), "u": u}
 
 
-HIST_NAMES = ["a", "d", "f", "é", "new", "", "..", "d/f", "x\0"]
+HIST_NAMES = ["a", "d", "f", "é", "new", "", "..", "d/f", "x\0", "srv2", "..\0"]
 
 
 def random_history(rng):
@@ -230,7 +240,7 @@ def random_history(rng):
             u = [tok(rng.choice(HIST_NAMES)) for _ in range(rng.randint(0, 3))]
             if rng.random() < 0.4:
                 u = [[], ["BASE1"], ["BASE2"]] + rng.choice([[], [tok("top")], [tok("top"), tok("srv")]]) + u
-        m = rng.choice(["GET", "GET", "PUT", "PUT", "DELETE", "DELETE", "POST"])
+        m = rng.choice(["GET", "GET", "GET", "PUT", "PUT", "PUT", "DELETE", "DELETE", "DELETE", "POST", "PATCH", "iPATCH"])
         steps.append({"m": m, "w": rng.random() < 0.8, "c": rng.choice(CONDS_OF[m]), "u": u})
     return steps
 
@@ -364,7 +374,7 @@ def _work(rep, args, quick, rng, blocklens, base, wd, pool):
                 wd,
                 "FileServer.tla",
                 cfg,
-                timeout=300 if quick else 2400,
+                timeout=900 if quick else 3000,
                 workers=None if guard else 1,
                 env={"JAVA_TOOL_OPTIONS": "-XX:ParallelGCThreads=4" if guard else SMALL_JVM},
             )
@@ -392,6 +402,19 @@ def _work(rep, args, quick, rng, blocklens, base, wd, pool):
         reqs = enum["requests"]
         if len(reqs) < 1000:
             raise MachineryError("enumeration produced only %d requests" % len(reqs))
+        # the method domain: the spec's Methods, this module's METHODS and the request codes aiocoap knows must be
+        # one and the same set, and every render_<method> handler of FileServer must be inside it -- otherwise a
+        # method the server answers would silently fall out of "whatever its method"
+        from harness.fileserverdrive import implemented_methods
+
+        codes, handlers = implemented_methods()
+        spec_methods = sorted({r["m"] for r in reqs})
+        if not (spec_methods == sorted(METHODS) == codes):
+            raise MachineryError(
+                "method domain mismatch: FileServer!Methods = %s, checks.c19.METHODS = %s, request codes of aiocoap.Code = %s"
+                % (spec_methods, sorted(METHODS), codes)
+            )
+        rep.coverage["methods"] = {"enumerated": spec_methods, "fileserver_handlers": handlers}
         for r in reqs:
             histories.append(("enumerated", expand([r])))
         for b in enum["blocks"]:
@@ -622,7 +645,7 @@ def _work(rep, args, quick, rng, blocklens, base, wd, pool):
         "file-system effects are what passes the intercepted os/io names (os.stat lstat open listdir scandir rename replace unlink remove rmdir mkdir link symlink truncate chmod chown utime readlink access, io.open/builtins.open) plus a before/after comparison of the whole temp tree incl. sentinel files outside the root; calls made through other routes (file descriptors, subprocesses) are invisible to the interception but not to the tree comparison",
         "modifying calls that would succeed outside the temp tree are blocked by the harness sandbox (recorded as attempted effects and judged as effects)",
         "requests are handed to FileServer.render_to_pipe as Message objects through aiocoap's own Pipe/error_to_message plumbing (no UDP, no serialisation)",
-        "exhaustive for Uri-Path lists of length <= 3 over the 9-component alphabet plus absolute probes, histories of length MaxReq in the model; real replays start from the pristine tree (plus seeded random histories)",
+        "exhaustive for Uri-Path lists of length <= 3 (thorough 4) over the 9-component alphabet plus absolute, sibling and decorated-dot probes, histories of length MaxReq in the model; real replays start from the pristine tree (plus seeded random histories)",
         "Observe registrations (add_observation / check_files_for_refreshes) and the .well-known/core special case are not exercised",
     ]
 
